@@ -210,6 +210,16 @@ def align_cases(thorough):
                                     yield {'axis': list(ax), 'angle_deg': ang, 'trans': list(tr), 'flip': flip,
                                            'x_layout': xi, 'p_layout': pi, 'noise': noise, 'constellation': ci,
                                            'envelope': True}
+    # corners of the envelope (close to 30 degrees about a body diagonal, 3 m along a diagonal): where the optimiser
+    # needs the most iterations
+    r3 = 3.0 / math.sqrt(3.0)
+    for ang in (27, 29, 29.9, -29.9):
+        for ax in ((1.0, 1.0, 1.0), (-1.0, -1.0, 1.0), (1.0, 1.0, 0.0), (-1.0, -1.0, 0.0)):
+            for tr in ((r3, r3, -r3), (r3, r3, r3), (0.0, -3.0, 0.0), (-r3, r3, r3)):
+                for xi, pi in ((0, 0), (1, 2)):
+                    for ci in range(len(CONSTELLATIONS)):
+                        yield {'axis': list(ax), 'angle_deg': ang, 'trans': list(tr), 'flip': 'none', 'x_layout': xi,
+                               'p_layout': pi, 'noise': 0, 'constellation': ci, 'envelope': True}
     # outside the envelope: rigid-motion clauses only
     for ang in ANGLES_LARGE:
         for ax in axes:
